@@ -1630,6 +1630,88 @@ func udpOOBByeCase(t *testing.T, id int, rep *vreport, rng *vrng, ci udpCipher) 
 	}
 }
 
+// udpOOBSuccessorCase: a caller-owned socket carries session A, then - after A.Close() returned -
+// session B (another conversation).  A's reader goroutine may still sit in the kernel when B's first
+// datagrams arrive; whatever it reads then is dropped: an out-of-band message for B never reaches
+// the handler of the closed session A, and B keeps receiving its messages and its stream.
+func udpOOBSuccessorCase(t *testing.T, id int, rep *vreport, rng *vrng, ci udpCipher) {
+	local, _ := net.ListenUDP("udp4", &net.UDPAddr{IP: net.IPv4(127, 0, 0, 1)})
+	remote, _ := net.ListenUDP("udp4", &net.UDPAddr{IP: net.IPv4(127, 0, 0, 1)})
+	defer local.Close()
+	defer remote.Close()
+	replay := map[string]any{"test": "TestVerifUDPOOB/successor", "seed": vSeed(), "case": id, "cipher": ci.name}
+	var mu sync.Mutex
+	var gotA, lateA, gotB [][]byte
+	closedA := false
+	convA, convB := uint32(0x1A000000+rng.intn(1<<16)), uint32(0x1B000000+rng.intn(1<<16))
+	sessA, _ := NewConn3(convA, remote.LocalAddr(), ci.mk(), 2, 1, local)
+	sessA.SetOOBHandler(func(b []byte) {
+		mu.Lock()
+		if closedA {
+			lateA = append(lateA, append([]byte(nil), b...))
+		} else {
+			gotA = append(gotA, append([]byte(nil), b...))
+		}
+		mu.Unlock()
+	})
+	p1, _ := NewConn3(convA, local.LocalAddr(), ci.mk(), 2, 1, remote)
+	waitFor := func(d time.Duration, f func() bool) bool {
+		end := time.Now().Add(d)
+		for time.Now().Before(end) {
+			mu.Lock()
+			ok := f()
+			mu.Unlock()
+			if ok {
+				return true
+			}
+			time.Sleep(5 * time.Millisecond)
+		}
+		return false
+	}
+	for i := 0; i < 20 && !waitFor(100*time.Millisecond, func() bool { return len(gotA) > 0 }); i++ {
+		p1.SendOOB([]byte("one: for session A"))
+	}
+	rep.Cases++
+	if !waitFor(time.Millisecond, func() bool { return len(gotA) > 0 }) {
+		rep.Distribution["udp_oob_successor_setup_failed"]++
+		sessA.Close()
+		p1.Close()
+		return
+	}
+	sessA.Close()
+	mu.Lock()
+	closedA = true
+	mu.Unlock()
+	p1.Close()
+	sessB, _ := NewConn3(convB, remote.LocalAddr(), ci.mk(), 2, 1, local)
+	defer sessB.Close()
+	sessB.SetOOBHandler(func(b []byte) {
+		mu.Lock()
+		gotB = append(gotB, append([]byte(nil), b...))
+		mu.Unlock()
+	})
+	p2, _ := NewConn3(convB, local.LocalAddr(), ci.mk(), 2, 1, remote)
+	defer p2.Close()
+	for i := 0; i < 40 && !waitFor(50*time.Millisecond, func() bool { return len(gotB) > 0 }); i++ {
+		p2.SendOOB([]byte(fmt.Sprintf("msg %d: for session B", i)))
+	}
+	rep.Nontrivial++
+	rep.Monitors["udp_oob_closed_session_handler_silent"]++
+	mu.Lock()
+	late, nb := len(lateA), len(gotB)
+	var sample []byte
+	if late > 0 {
+		sample = lateA[0]
+	}
+	mu.Unlock()
+	if late > 0 {
+		rep.violate("oob-misrouted", fmt.Sprintf("successor case %d (%s): %d out-of-band message(s) sent to conversation %#x were delivered to the handler of conversation %#x on the same caller-owned socket AFTER that session's Close() had returned (first: %q)", id, ci.name, late, convB, convA, sample), replay)
+	}
+	if nb == 0 {
+		rep.violate("oob-size-undeliverable", fmt.Sprintf("successor case %d (%s): 40 out-of-band messages to the successor session on a shared socket, none arrived", id, ci.name), replay)
+	}
+}
+
 func TestVerifUDPOOB(t *testing.T) {
 	rng := newRng(vSeed() ^ 0x0DD)
 	rep := newReport("UDP-oob")
@@ -1651,6 +1733,10 @@ func TestVerifUDPOOB(t *testing.T) {
 	for k, ci := range udpCiphers() {
 		if vThorough() || k%3 == 1 {
 			udpOOBByeCase(t, id, rep, rng, ci)
+			id++
+		}
+		if vThorough() || k%3 == 2 {
+			udpOOBSuccessorCase(t, id, rep, rng, ci)
 			id++
 		}
 	}
